@@ -326,7 +326,7 @@ def split_stmts(toks, a, b):
 # ---------------------------------------------------------------------------------------------
 
 class FnInfo(object):
-    __slots__ = ('name', 'item', 'body', 'toks', 'file', 'slice_params', 'short')
+    __slots__ = ('name', 'item', 'body', 'toks', 'file', 'slice_params', 'short', 'ret_bool')
 
 
 class FileScan(object):
@@ -344,6 +344,21 @@ class FileScan(object):
         self.impls = []                # (item, prefix)
         self.macros = []               # macro items
         self.test_mod_decls = []       # names of `#[cfg(test)] mod x;`
+        self.attr = bytearray(n)       # 1 = token belongs to an attribute `#[..]` / `#![..]`
+        toks = sf.toks
+        i = 0
+        while i < n:
+            if is_p(toks[i], '#'):
+                j = i + 1
+                if j < n and is_p(toks[j], '!'):
+                    j += 1
+                if j < n and is_p(toks[j], '['):
+                    k = rslex.match_delim(toks, j)
+                    for q in range(i, k):
+                        self.attr[q] = 1
+                    i = k
+                    continue
+            i += 1
         self.visit(sf.items, '', False)
 
     def mark(self, a, b, name):
@@ -366,6 +381,8 @@ class FileScan(object):
         fi.toks = it.toks
         fi.file = self.sf.relname
         fi.slice_params = slice_params(it)
+        fi.ret_bool = (it.sig_ret is not None
+                       and [t[1] for t in it.toks[it.sig_ret[0]:it.sig_ret[1]]] == ['bool'])
         self.fns.append(fi)
         try:
             nested = rslex.nested_items(it)
@@ -442,6 +459,8 @@ class FileScan(object):
                                 fi.toks = toks
                                 fi.file = self.sf.relname
                                 fi.slice_params = set()
+                                hdr = [t[1] for t in toks[q:b]]
+                                fi.ret_bool = hdr[-2:] == ['->', 'bool']
                                 self.fns.append(fi)
                         q += 1
 
@@ -898,6 +917,245 @@ def scanned_fns(scans):
 
 
 # ---------------------------------------------------------------------------------------------
+# branch sites (property C10: no secret-dependent control flow)
+# ---------------------------------------------------------------------------------------------
+
+CD = 'curve25519-dalek/src/'
+# Scope of the branch-site inventory.  Per file: None = every non-test fn of the file; otherwise a regex, and
+# the fns whose qualified name matches it (`re.search`) are EXCLUDED, everything else is scanned -- so a new fn in
+# one of these files is in scope by default.  The excluded fns are emitted (`branchExcludedFns`) and pinned by a
+# Lean theorem against a hand-reviewed list.
+_VT = (r'Vartime|vartime|optional_|Debug>::fmt|::fmt$|Serialize|Deserialize|Visitor|::expecting$|::visit_|'
+       r'non_adjacent_form|NafLookupTable|to_radix_2w_size_hint|Pippenger|Precomput')
+BRANCH_SCOPE = {
+    CD + 'field.rs': _VT,
+    CD + 'backend/serial/u64/field.rs': _VT,
+    CD + 'backend/serial/u32/field.rs': _VT,
+    CD + 'backend/serial/u64/scalar.rs': _VT,
+    CD + 'backend/serial/u32/scalar.rs': _VT,
+    CD + 'backend/serial/fiat_u64/field.rs': _VT,
+    CD + 'backend/serial/fiat_u32/field.rs': _VT,
+    CD + 'backend/serial/curve_models/mod.rs': _VT,
+    CD + 'backend/vector/avx2/field.rs': _VT,
+    CD + 'backend/vector/avx2/edwards.rs': _VT,
+    CD + 'backend/vector/ifma/field.rs': _VT,
+    CD + 'backend/vector/ifma/edwards.rs': _VT,
+    CD + 'backend/vector/packed_simd.rs': _VT,
+    CD + 'backend/mod.rs': _VT + r'|get_selected_backend',
+    CD + 'backend/serial/scalar_mul/variable_base.rs': _VT,
+    CD + 'backend/serial/scalar_mul/straus.rs': _VT,
+    CD + 'backend/vector/scalar_mul/variable_base.rs': _VT,
+    CD + 'backend/vector/scalar_mul/straus.rs': _VT,
+    CD + 'window.rs': _VT,
+    CD + 'montgomery.rs': _VT,
+    CD + 'ristretto.rs': _VT,
+    CD + 'edwards.rs': _VT,
+    CD + 'scalar.rs': _VT,
+    CD + 'traits.rs': _VT,
+    'ed25519-dalek/src/signing.rs': _VT + r'|::verify|Verifier',
+    'ed25519-dalek/src/hazmat.rs': _VT + r'|raw_verify',
+    'x25519-dalek/src/x25519.rs': _VT,
+}
+_INT_TYS = {'as', 'usize', 'u8', 'u16', 'u32', 'u64', 'u128', 'i8', 'i16', 'i32', 'i64', 'isize'}
+_ITER_METHODS = {'rev', 'iter', 'iter_mut', 'into_iter', 'zip', 'enumerate', 'len', 'step_by', 'chunks',
+                 'chunks_exact', 'skip', 'take', 'by_ref'}
+
+
+def _expr_ends(p):
+    return (p[0] in ('id', 'int', 'str', 'chr', 'flt') and p[1] not in KEYWORDS) or \
+           (p[0] == 'p' and p[1] in (')', ']', '?'))
+
+
+def _public_iter(toks, a, b):
+    """the iterator expression [a,b) of a `for` is a literal range or walks slices / arrays (`x.iter()`, `.len()`)."""
+    for i in range(a, b):
+        t = toks[i]
+        if t[0] == 'int':
+            continue
+        if t[0] == 'p':
+            if t[1] in ('..', '..=', '(', ')', '.', '&', ','):
+                continue
+            return False
+        if t[0] == 'id':
+            if t[1] in ('self', 'mut'):
+                continue
+            if t[1] in _ITER_METHODS and i > a and is_p(toks[i - 1], '.'):
+                continue
+            if i + 1 < b and is_p(toks[i + 1], '.'):
+                continue
+            return False
+        return False
+    return True
+
+
+def branch_sites_of_fn(fs, fi):
+    toks = fi.toks
+    a, b = fi.body
+    owner = fs.owner
+    attr = fs.attr
+    rel = fs.sf.relname
+    mine = [i for i in range(a + 1, b - 1) if owner[i] == fi.name and not attr[i]]
+    # loop variables of all `for` loops, `let .. : bool` statements
+    loopvars = set()
+    bool_lets = []
+    for i in mine:
+        t = toks[i]
+        if t[0] == 'id' and t[1] == 'for':
+            j = i + 1
+            while j < b and not (toks[j][0] == 'id' and toks[j][1] == 'in'):
+                if toks[j][0] == 'id' and toks[j][1] not in KEYWORDS:
+                    loopvars.add(toks[j][1])
+                j += 1
+        elif t[0] == 'id' and t[1] == 'let' and not (toks[i - 1][0] == 'id' and toks[i - 1][1] in ('if', 'while')):
+            e = rslex._find_at_depth0(toks, i, b - 1, (';',))
+            eq = rslex._find_at_depth0(toks, i, e, ('=',))
+            c = rslex._find_at_depth0(toks, i, eq, (':',))
+            if c < eq and [x[1] for x in toks[c + 1:eq]] == ['bool']:
+                bool_lets.append((i, e))
+    sites = []
+
+    def add(i, kind, text):
+        sites.append({'file': rel, 'line': toks[i][2], 'func': fi.name, 'kind': kind, 'text': text})
+
+    def brace(i):
+        return rslex._find_at_depth0(toks, i, b - 1, ('{',))
+
+    for i in mine:
+        t = toks[i]
+        k0, x = t[0], t[1]
+        nxt = toks[i + 1] if i + 1 < b else ('p', '', 0, None)
+        prv = toks[i - 1]
+        if k0 == 'id':
+            if x in ('if', 'while'):
+                e = brace(i + 1)
+                if nxt[0] == 'id' and nxt[1] == 'let':
+                    add(i, x + ' let', clip_head(render(toks, i + 2, e)))
+                else:
+                    add(i, x, clip_head(render(toks, i + 1, e)))
+            elif x == 'match':
+                add(i, 'match', clip_head(render(toks, i + 1, brace(i + 1))))
+            elif x == 'for':
+                j = i + 1
+                while j < b and not (toks[j][0] == 'id' and toks[j][1] == 'in'):
+                    j += 1
+                e = brace(j + 1)
+                if not _public_iter(toks, j + 1, e):
+                    add(i, 'for', clip_head(render(toks, i + 1, e)))
+            elif x in ('return', 'break', 'continue'):
+                add(i, x, clip_head(render(toks, i, expr_end(toks, i, b - 1))))
+            elif x == 'bool' and is_p(nxt, '::') and toks[i + 2][1] == 'from' and is_p(toks[i + 3], '('):
+                add(i, 'bool::from', clip_head(render(toks, i, rslex.match_delim(toks, i + 3))))
+            elif is_p(prv, '.') and is_p(nxt, '('):
+                if x == 'into' and is_p(toks[i + 2], ')'):
+                    s0 = expr_start(toks, i - 2, a + 1)
+                    txt = clip_tail(render(toks, s0, i + 3))
+                    if i >= 5 and toks[i - 4][1] in ('is_some', 'is_none') and is_p(toks[i - 5], '.'):
+                        add(i, 'is_some_into', txt)
+                    elif fi.ret_bool or any(ls <= i < le for ls, le in bool_lets):
+                        add(i, 'into_bool', txt)
+                elif x == 'unwrap_u8':
+                    add(i, 'unwrap_u8', clip_tail(render(toks, expr_start(toks, i - 2, a + 1), i + 3)))
+                elif x in UNWRAPS:
+                    kk = rslex.match_delim(toks, i + 1)
+                    add(i, x, clip_tail(render(toks, expr_start(toks, i - 2, a + 1), kk)))
+            elif x in PANIC_MACROS and is_p(nxt, '!') and toks[i + 2][0] == 'p' and toks[i + 2][1] in _OPEN:
+                add(i, x + '!', clip_head(render(toks, i, rslex.match_delim(toks, i + 2))))
+        elif k0 == 'p':
+            if x in ('&&', '||') and _expr_ends(prv):
+                s0 = expr_start(toks, i - 1, a + 1)
+                add(i, x, clip_head(render(toks, s0, expr_end(toks, i + 1, b - 1))))
+            elif x == '?' and _expr_ends(prv):
+                add(i, '?', clip_tail(render(toks, expr_start(toks, i - 1, a + 1), i + 1)))
+            elif x == '[' and (_expr_ends(prv) or (prv[0] == 'int' and is_p(toks[i - 2], '.'))):
+                if is_p(prv, ')'):
+                    m = match_back(toks, i - 1, max(0, i - 8))
+                    if m is not None and m > 0 and toks[m - 1][0] == 'id' and toks[m - 1][1] == 'pub':
+                        continue
+                kk = rslex.match_delim(toks, i)
+                ids = [q[1] for q in toks[i + 1:kk - 1] if q[0] == 'id' and q[1] not in _INT_TYS]
+                macro_param = any(is_p(q, '$') for q in toks[i + 1:kk - 1])
+                if (ids and not all(v in loopvars for v in ids)) or (macro_param and not ids):
+                    s0 = postfix_start(toks, i - 1, a + 1)
+                    add(i, 'index', clip_tail(render(toks, s0, kk)))
+    return sites
+
+
+def branch_inventory(scans):
+    """(sites, scanned [(file, [fn])], excluded [(file, [fn])]) for the files of BRANCH_SCOPE."""
+    sites = []
+    scanned = []
+    excluded = []
+    missing = []
+    seen_files = set()
+    for fs in scans:
+        rel = fs.sf.relname
+        if rel not in BRANCH_SCOPE:
+            continue
+        seen_files.add(rel)
+        rx = BRANCH_SCOPE[rel]
+        sc, ex = [], []
+        for fi in fs.fns:
+            if rx is not None and re.search(rx, fi.name):
+                if fi.name not in ex:
+                    ex.append(fi.name)
+                continue
+            if fi.name not in sc:
+                sc.append(fi.name)
+            sites.extend(branch_sites_of_fn(fs, fi))
+        scanned.append((rel, sc))
+        if ex:
+            excluded.append((rel, ex))
+    for rel in sorted(BRANCH_SCOPE):
+        if rel not in seen_files:
+            missing.append('%s: file in the branch-site scope was not found / not scanned' % rel)
+    occ = {}
+    for s in sites:
+        k = (s['file'], s['func'], s['kind'], s['text'])
+        s['occ'] = occ.get(k, 0)
+        occ[k] = s['occ'] + 1
+        s['key'] = encode_key(*k)
+    return sites, scanned, excluded, missing
+
+
+def emit_branch_lean(header, binv):
+    sites, scanned, excluded, missing = binv
+    o = [header,
+         '/-! Branch-site inventory (property C10): every control-flow construct and every data-to-control conversion\n'
+         'in the functions of the constant-time scope.  See `/verif/tools/rs2lean/inventory.py` (`BRANCH_SCOPE`). -/\n',
+         'namespace Dalek.Gen.BranchInventory\n',
+         '/-- A syntactic control-flow / declassification site.  `kind`: `if`, `if let`, `while`, `while let`, `match`,\n'
+         '`for` (only when the iterator is not a literal range / slice walk), `return`, `break`, `continue`, `?`, `&&`, `||`,\n'
+         '`bool::from`, `into_bool`, `is_some_into`, `unwrap_u8`, `unwrap`, `expect`, `assert!`, `debug_assert!`, ..., `index`\n'
+         '(index that mentions something other than literals and `for`-loop variables).  `text`: the condition /\n'
+         'scrutinee / expression.  `key`: injective numeric encoding of `(file, func, kind, text)` as for panic sites;\n'
+         '`occ` numbers equal keys in source order. -/',
+         'structure BranchSite where\n  file : String\n  line : Nat\n  func : String\n  kind : String\n'
+         '  text : String\n  occ : Nat\n  key : Nat\n']
+    chunk = 100
+    names = []
+    for c in range(0, len(sites), chunk):
+        nm = 'branchSites%d' % (c // chunk)
+        names.append(nm)
+        o.append('def %s : List BranchSite := [' % nm)
+        o.append(',\n'.join(
+            '  ⟨%s, %d, %s, %s,\n   %s, %d, 0x%x⟩'
+            % (lstr(s['file']), s['line'], lstr(s['func']), lstr(s['kind']), lstr(s['text']), s['occ'], s['key'])
+            for s in sites[c:c + chunk]) + ']\n')
+    o.append('/-- every branch site of the constant-time scope, in source order -/')
+    o.append('def branchSites : List BranchSite :=\n  %s\n' % (' ++ '.join(names) if names else '[]'))
+    o.append('/-- the functions that were scanned, per file -/')
+    o.append('def branchScannedFns : List (String × List String) := [')
+    o.append(',\n'.join('  (%s, %s)' % (lstr(f), llist(ns)) for f, ns in scanned) + ']\n')
+    o.append('/-- the functions of the scoped files that were NOT scanned (variable-time by contract, formatting, serde) -/')
+    o.append('def branchExcludedFns : List (String × List String) := [')
+    o.append(',\n'.join('  (%s, %s)' % (lstr(f), llist(ns)) for f, ns in excluded) + ']\n')
+    o.append('/-- scope files that were not found (must be empty) -/')
+    o.append('def branchScopeErrors : List String := %s\n' % llist(missing))
+    o.append('end Dalek.Gen.BranchInventory\n')
+    return '\n'.join(o)
+
+
+# ---------------------------------------------------------------------------------------------
 # driver
 # ---------------------------------------------------------------------------------------------
 
@@ -949,7 +1207,8 @@ def collect(repo, srcs=None):
         occ[k] = s['occ'] + 1
         s['key'] = encode_key(*k)
     return {'drop_facts': dfacts, 'zeroize_facts': zfacts, 'wipe_facts': wfacts, 'panic_sites': sites,
-            'errors': errors, 'files': [fs.sf.relname for fs in scans], 'scanned_fns': sfns}
+            'errors': errors, 'files': [fs.sf.relname for fs in scans], 'scanned_fns': sfns,
+            'branch': branch_inventory(scans)}
 
 
 def lstr(s):
@@ -1066,6 +1325,13 @@ def emit_lean(header, inv):
     return '\n'.join(o)
 
 
+def branch_by_kind(sites):
+    d = {}
+    for s in sites:
+        d[s['kind']] = d.get(s['kind'], 0) + 1
+    return d
+
+
 def manifest_part(inv):
     by_kind = {}
     for s in inv['panic_sites']:
@@ -1078,7 +1344,10 @@ def manifest_part(inv):
         'wipe_facts': inv['wipe_facts'],
         'panic_sites_count': len(inv['panic_sites']),
         'panic_sites_by_kind': by_kind,
-        'inventory_errors': inv['errors'],
+        'branch_sites_count': len(inv['branch'][0]),
+        'branch_sites_by_kind': branch_by_kind(inv['branch'][0]),
+        'branch_excluded_fns': dict(inv['branch'][2]),
+        'inventory_errors': inv['errors'] + inv['branch'][3],
     }
 
 
@@ -1088,6 +1357,9 @@ def generate(repo, outdir, header, write_if_changed, srcs=None):
     p = os.path.join(outdir, 'Inventory.lean')
     written = []
     if write_if_changed(p, emit_lean(header, inv)):
+        written.append(p)
+    p = os.path.join(outdir, 'BranchInventory.lean')
+    if write_if_changed(p, emit_branch_lean(header, inv['branch'])):
         written.append(p)
     return manifest_part(inv), written, inv
 
